@@ -667,6 +667,10 @@ def lookahead(g: Grammar) -> int:
                 L = max(L, len(a[1]))
             elif a[0] in ('bytes', 'require'):
                 L = max(L, int(a[1]))
+            elif a[0] == 'repOne':           # rep_one_min_max asks for in.size( Max + 1 )
+                L = max(L, int(a[2]) + 1)
+            elif a[0] == 'utf8Range':
+                L = max(L, 4)
     return L
 
 
